@@ -220,6 +220,12 @@ pub fn plan(property: &str, tier: &str) -> Option<CheckSpec> {
             gc.max_locals = 1;
             gc.max_len = if quick { 3 } else { 4 };
             let nconc = b.add_concurrent(&gc, &[false], 2, &rules, if quick { 1 } else { 2 });
+            // two roots that carry the same trace id (two requests continuing one distributed trace)
+            let mut gs = g.clone();
+            gs.name = "C01-sameid".into();
+            gs.traces = vec![TraceOpt { trace: 0x1D, sampled: true, remote_parent: 0x51 }, TraceOpt { trace: 0x1D, sampled: true, remote_parent: 0x52 }];
+            gs.max_len = if quick { 5 } else { 6 };
+            b.add_gen(&gs, 1, &[false], &rules, 3_000_000);
             rule_text = format!("named multi-threaded scenarios x all schedules up to the preemption bound, plus {nconc} generated concurrent two-thread programs (operations moved to a second thread, hand-offs only where well-formedness needs them, preemptions <= 2), plus {n1} generated single-actor and {n2} two-actor lock-step programs x all placements of atomic collector cycles; an execution is non-trivial when a collector drain step falls between the first and the last queue command of the program");
             bound_text = format!("scenarios: preemptions <= {bound}, 2 collector cycles + final flush; generated: <= 3 spans, <= {} local spans, <= {} operations, <= {} cycles", g.max_locals, g.max_len, if quick { 1 } else { 2 });
             assumptions.push("wall-clock half of the statement: in the exploration the timer is abstracted to 'a cycle happens' (rule `prompt`); the library's own background thread is additionally observed free-running (report interval 10 ms, no flush(), 20 rounds, each round's spans must arrive within 20 intervals + 0.5 s; then the reporter is replaced while a worker finishes spans during the old reporter's tear-down, and the spans must reach the new reporter) - an observation, not an enumeration; it appears under coverage.external_engine".into());
@@ -259,6 +265,11 @@ pub fn plan(property: &str, tier: &str) -> Option<CheckSpec> {
             gc.max_locals = 1;
             gc.max_len = if quick { 3 } else { 4 };
             let nconc = b.add_concurrent(&gc, &[true], 2, &rules, if quick { 1 } else { 2 });
+            // two roots that carry the same trace id: each is held, committed and delivered on its own
+            let mut gs = g.clone();
+            gs.name = "C03-sameid".into();
+            gs.traces = vec![TraceOpt { trace: 0x3D, sampled: true, remote_parent: 0x51 }, TraceOpt { trace: 0x3D, sampled: true, remote_parent: 0x52 }];
+            b.add_gen(&gs, 1, &[true], &rules, 3_000_000);
             rule_text = format!("named multi-threaded scenarios (cancelable) x all schedules up to the preemption bound, plus {nconc} generated concurrent two-thread programs (preemptions <= 2), plus {n1} + {n2} generated programs x all placements of atomic collector cycles");
             bound_text = format!("scenarios: preemptions <= {bound}, 2 collector cycles + final flush; generated: <= 3 spans, <= {} operations", g.max_len);
         }
@@ -295,6 +306,12 @@ pub fn plan(property: &str, tier: &str) -> Option<CheckSpec> {
             gc.max_parents = 1;
             gc.max_len = if quick { 3 } else { 4 };
             let nconc = b.add_concurrent(&gc, &[true, false], 2, &rules, if quick { 1 } else { 2 });
+            // two roots that carry the same trace id: cancelling one leaves the other alone
+            let mut gs = g.clone();
+            gs.name = "C04-sameid".into();
+            gs.max_attach = 0;
+            gs.traces = vec![TraceOpt { trace: 0x4D, sampled: true, remote_parent: 0x51 }, TraceOpt { trace: 0x4D, sampled: true, remote_parent: 0x52 }];
+            b.add_gen(&gs, 1, &[true, false], &rules, 3_000_000);
             // cancel() while the calling thread's command queue is full (the overload programs of
             // C09 that contain a cancel)
             let ring: Vec<Program> = overload_programs(if quick { 2 } else { 3 }).into_iter().filter(|p| p.actors[0].ops.iter().any(|o| matches!(o, Op::Cancel { .. }))).collect();
